@@ -748,6 +748,7 @@ def run(report, p):
 
     # ---- rules shared with other properties (same mechanism, same rule, reported under every property it can break)
     include_rules(report, p, 'c05', ['R5.7'], 'what counts as a nested history decides which folders are verified against which history and which tree makes the loader refuse: exactly the directories that contain an ascmhl FOLDER (as listed by the walk)')
+    include_rules(report, p, 'c10', ['R10.7'], 'a recorded path that was edited on its way into the manifest no longer matches the file: the unchanged tree is reported as one new and one missing file')
     include_rules(report, p, 'c08', ['R8.1', 'R8.2'], 'verify/diff look recorded entries up through the same routing')
     include_rules(report, p, 'c01', ['R1.1', 'R1.2'], 'an altered file is only detected if every byte is hashed with the recorded algorithm')
     include_rules(report, p, 'c04', ['R4.1'], "create's verdict per file is the session's action decision")
